@@ -141,9 +141,14 @@ class C06(Oracle):
                 a1 = act(v1)
                 mine = [x for x in results if a1 in TRAVEL and tuple(v1.vehicle_state.route) == x[2] and x[1] and x[1][-1].end == v1.position.geoid]
                 if len(mine) > 1:
-                    # several vehicles reached the same place: tell them apart by where they started
+                    # several vehicles reached the same place: the traversal of this vehicle is the one that was handed the
+                    # very route object the vehicle held when the updates began; failing that, where it started
                     u0 = (ctx.applied[-1][2].vehicles.get(vid) if ctx.applied else v0) or v0
-                    mine = [x for x in mine if x[0][0].start == u0.position.geoid] or mine
+                    ru0 = getattr(u0.vehicle_state, "route", None)
+                    exact = [x for x in mine if x[0] is ru0]
+                    mine = exact or [x for x in mine if x[0][0].start == u0.position.geoid] or mine
+                    if len(mine) > 1:
+                        mine = [x for x in mine if abs(x[3].traversal_distance_km - dd) <= 1e-12 * max(1.0, dd)] or mine
                 if not mine and a1 in TRAVEL:
                     out.append(V("C06", "position_not_at_junction", k, f"vehicle {vid} at {v1.position.geoid} with {len(v1.vehicle_state.route)} links left matches no traversal of this step"))
                 elif mine:
